@@ -4,6 +4,7 @@ import json
 import os
 
 from ..core import Property, AnalysisError, unparse, norm, walk_no_nested
+from ..cfg import build_cfg
 from ..sym import Interp, S, term, show, subterms, State, flatten_cat
 from ..layout import LAYOUT_HOOKS, normalize, plus_to_cat
 from .. import intv, mut
@@ -354,6 +355,58 @@ def encoders(ctx):
         # the version must be the first data value
         firsts = [s for s in subterms(('w', v)) if isinstance(s, tuple) and s[0] == 'list' and len(s) >= 2]
         ctx.require(any(s[1] == wv for s in firsts), q, 'witness version %d is not the first 5-bit value of the data part' % wv, fn)
+
+
+@PROP.obligation('C04.oncurve-all-formats', canaries=[
+    mut.drop_stmt('keys', 'Key.__init__', 'if strict:', 'on-curve test removed', nth=1),
+])
+def oncurve_all_formats(ctx):
+    """Key.__init__: EVERY way of importing a public key (point tuple, compressed / uncompressed hex or bytes) passes the curve test before
+    the constructor can finish: from the first statement of each format branch of the public-key block no path reaches the end of the
+    function once the node of the curve test is removed from the control-flow graph."""
+    q = 'keys:Key.__init__'
+    fn = ctx.repo.func(q)
+    g = build_cfg(fn)
+    curve_ifs = [n for n in ast.walk(fn) if isinstance(n, ast.If) and any(isinstance(x, ast.Raise) for x in n.body) and 'secp256k1_p' in unparse(n.test) and '%' in unparse(n.test)]
+    if not curve_ifs:
+        ctx.violate(q, 'no curve-membership test guards the import of a public key', fn, 'points that are not on secp256k1 produce key objects and addresses')
+        return
+    tests = [n.id for n in g.nodes if n.kind == 'test' and any(sub is n.ast for ci in curve_ifs for sub in ast.walk(ci.test))]
+    strict_ifs = [n for n in ast.walk(fn) if isinstance(n, ast.If) and unparse(n.test) == 'strict' and any(ci in list(ast.walk(n)) for ci in curve_ifs)]
+    strict_tests = [n.id for n in g.nodes if n.kind == 'test' and any(n.ast is si.test for si in strict_ifs)]
+    pub = [n for n in walk_no_nested(fn) if isinstance(n, ast.If) and unparse(n.test) == 'not self.is_private']
+    if not pub:
+        ctx.undecided('Key.__init__: public-key block not found')
+    # the format branches: direct if/elif/else alternatives at the top of the public block
+    fmt = [s for s in pub[0].body if isinstance(s, ast.If) and 'key_format' in unparse(s.test)]
+    if not fmt:
+        ctx.undecided('Key.__init__: format dispatch of the public-key block not found')
+    branches = []
+    cur = fmt[0]
+    while True:
+        branches.append((unparse(cur.test), cur.body[0]))
+        if len(cur.orelse) == 1 and isinstance(cur.orelse[0], ast.If) and 'key_format' in unparse(cur.orelse[0].test):
+            cur = cur.orelse[0]
+            continue
+        if cur.orelse:
+            branches.append(('otherwise (hex / bytes encodings)', cur.orelse[0]))
+        break
+    ends = [n.id for n in g.nodes if n.kind in ('exit', 'return', 'end')] or [g.exit] if hasattr(g, 'exit') else [n.id for n in g.nodes if n.kind in ('return',)]
+    ends = [n.id for n in g.nodes if not n.succ and n.kind != 'raise']
+    for name, first in branches:
+        start = [n.id for n in g.nodes if n.ast is first or (n.kind == 'test' and isinstance(first, ast.If) and n.ast is first.test) or (n.kind == 'test' and isinstance(first, ast.If) and any(sub is n.ast for sub in ast.walk(first.test)))]
+        if not start:
+            ctx.undecided('Key.__init__: first statement of branch `%s` has no CFG node' % name)
+        # with strict=True the `if strict` test goes to its true side: block its false edges
+        blocked_edges = []
+        for t in strict_tests:
+            blocked_edges += g.edges_of(t, 'F')
+        seen = g.reach([start[0]], blocked_nodes=tests, blocked_edges=blocked_edges)
+        escapes = [e for e in ends if e in seen]
+        ctx.saw('public key given as `%s`: constructor can finish without the curve test: %s' % (name, bool(escapes)))
+        if escapes:
+            ctx.violate(q, 'a public key imported through the branch `%s` never reaches the curve test (strict=True)' % name, first,
+                        'Key((x, y)) with an off-curve pair produces a key object and addresses')
 
 
 @PROP.obligation('C04.compressed-form', canaries=[
